@@ -25,6 +25,9 @@ BATCH_SIZE = {'quick': 2, 'thorough': 6}
 REQUIRED_COUNTERS = ['stats_files_checked', 'cluster_gene_cells_checked',
                      'partition_pairs_compared', 'truncations_checked',
                      'two_step_truncations', 'truncations_from_permuted_rows',
+                     'file_lists_sharing_a_base_name',
+                     'runs_with_copy_data_over',
+                     'same_named_files_copied_to_scratch',
                      'merges_checked', 'boundary_cpm_equal_one_entries',
                      'unlabelled_cells']
 RULE = ('case = labelled reference matrix (clusters of one cell, unlabelled '
@@ -355,15 +358,32 @@ def run_case(spec, work):
                                      if labels[i] == lf]
                                 for lf in model.leaves}
                     tree = TaxonomyTree(data=m2.to_dict(with_cells=True))
+                    copy_over = bool(rng.random() < 0.5)
+                    if copy_over:
+                        ctx.bump('runs_with_copy_data_over')
+                    what += f' copy_data_over={copy_over}'
                     pfa.precompute_summary_stats_from_h5ad_and_tree(
                         data_path=p, taxonomy_tree=tree, output_path=out,
                         rows_at_a_time=rat, normalization=norm,
-                        tmp_dir=str(work / 'tmp'), n_processors=n_proc)
+                        tmp_dir=str(work / 'tmp'), n_processors=n_proc,
+                        copy_data_over=copy_over)
                     want = want_all
                     rmodel = model
                     cells_of_leaf = m2.cells
                 else:
                     n_files = int(rng.integers(1, 5))
+                    same_names = bool((pi // 3) % 2 == 0)
+                    copy_over = bool(rng.random() < 0.5)
+                    if same_names:
+                        n_files = max(2, n_files)
+                        copy_over = bool(spec['seed'] % 2)
+                        ctx.bump('file_lists_sharing_a_base_name')
+                        if copy_over:
+                            ctx.bump('same_named_files_copied_to_scratch')
+                    if copy_over:
+                        ctx.bump('runs_with_copy_data_over')
+                    what += (f' files_share_base_name={same_names} '
+                             f'copy_data_over={copy_over}')
                     assign = rng.integers(0, n_files, size=n_cells)
                     paths = []
                     for fi in range(n_files):
@@ -372,6 +392,10 @@ def run_case(spec, work):
                             continue
                         idx = [idx[j] for j in rng.permutation(len(idx))]
                         p = work / f'ref_list_{fi}.h5ad'
+                        if same_names:
+                            # one directory per file, one base name for all
+                            (work / f'donor_{pi}_{fi}').mkdir(exist_ok=True)
+                            p = work / f'donor_{pi}_{fi}' / 'expression.h5ad'
                         mapworld.write_h5ad(
                             p, X[idx], [cells[i] for i in idx], genes,
                             encoding=str(rng.choice(['dense', 'csr',
@@ -386,7 +410,7 @@ def run_case(spec, work):
                         data_path_list=paths, taxonomy_tree=tree,
                         output_path=out, rows_at_a_time=rat,
                         normalization=norm, tmp_dir=str(work / 'tmp'),
-                        n_processors=n_proc)
+                        n_processors=n_proc, copy_data_over=copy_over)
                     want = want_all
                     rmodel = model
                     cells_of_leaf = m2.cells
